@@ -73,11 +73,11 @@ func main() {
 
 	semiSetMeasured()
 	groupingExhaustive(rng.Fork())
-	groupingRandom(rng.Fork(), flags.Scale(20000, 500000))
+	groupingRandom(rng.Fork(), flags.Scale(15000, 500000))
 	layouts(rng.Fork())
-	literals(rng.Fork(), flags.Scale(30000, 400000))
+	literals(rng.Fork(), flags.Scale(20000, 400000))
 	programs(rng.Fork(), flags.Scale(3000, 40000))
-	rawBytes(rng.Fork(), flags.Scale(10000, 200000))
+	rawBytes(rng.Fork(), flags.Scale(6000, 200000))
 	for _, c := range corpus {
 		checkSource("corpus", c, true)
 	}
